@@ -4,6 +4,7 @@
 -/
 import MotoModel.Proofs.GenFn
 import MotoModel.Proofs.TapeFormat
+import MotoModel.Proofs.Names
 namespace Moto.C03
 open Moto Moto.Tape
 
@@ -94,5 +95,24 @@ example : totalLen (allRaw (fun _ => some [1, 2, 3]) [[97], [98, 46, 98, 97, 115
     on every run, is the model's checksum for every payload -/
 theorem generated_checksum (data : List Nat) : Gen.Fn.computeChecksum data = Tape.checksum data :=
   GenFn.computeChecksum_eq data
+
+
+/-- **C03 (the leader names the file by the naming rule — name padded to 8, extension padded to 3, upper case; kind and mode
+    from the extension as documented)**: for *every* argument string, what the archiver puts into the leader block and the file
+    it reads are those of `Spec.Names.tapeSource` — the last path component cut at its last dot, both parts upper-cased, 8
+    characters of the name and 3 of the extension, kind / mode by `Spec.K7.kindMode` of the upper-cased extension (`BAS`,
+    `BAS,A`, `CSV`, other), the option `,a` taken off the path that is opened.  The specification is written with `reverse` /
+    `takeWhile`, the code with `rfind` and index arithmetic (Proofs/Names.lean). -/
+theorem source_naming_rule (src : Str) :
+    classify src = ({ name := (Spec.Names.tapeSource src).name, ext := (Spec.Names.tapeSource src).ext,
+                      kind := (Spec.Names.tapeSource src).kind, mode := (Spec.Names.tapeSource src).mode },
+                    (Spec.Names.tapeSource src).path) :=
+  classify_eq_spec src
+
+/-- the specification on the usual cases -/
+example : Spec.Names.tapeSource (str "dir.d/prog.bas,a") = ⟨str "PROG", str "BAS", 0, 0xFFFF, str "dir.d/prog.bas"⟩ := by decide
+example : Spec.Names.tapeSource (str "/abs/verylongname.data") = ⟨str "VERYLONG", str "DAT", 2, 0, str "/abs/verylongname.data"⟩ := by decide
+example : Spec.Names.tapeSource (str "a.b/noext") = ⟨str "NOEXT", [], 2, 0, str "a.b/noext"⟩ := by decide
+example : Spec.Names.tapeSource (str "t.v2.csv") = ⟨str "T.V2", str "CSV", 1, 0, str "t.v2.csv"⟩ := by decide
 
 end Moto.C03
